@@ -55,6 +55,18 @@ fn main() {
         }
         return;
     }
+    if argv.get(1).map(|s| s.as_str()) == Some("childbuild") {
+        // buildsim childbuild SCRATCH_ROOT component|module PLAN_JSON : one simulated build in this
+        // process (used with VERIF_HARD_KILL to compare a real abrupt death with the simulated kill)
+        let root = std::path::PathBuf::from(&argv[2]);
+        let component = argv[3] == "component";
+        let plan = Json::parse(&argv[4]).ok().and_then(|j| sim::Plan::from_json(&j)).expect("plan");
+        let s = harness::Scratch::adopt(&root);
+        let r = harness::build(&s, component, plan, false, None);
+        std::mem::forget(s);
+        println!("{}", r.outcome.tag());
+        return;
+    }
     match parse_args() {
         Ok(Cmd::Run(args)) => {
             let mut stats = ShardStats::new();
